@@ -7,7 +7,7 @@ CONSTANTS
   WithEmptyDB = FALSE
   CDurs = {0, 1, 2, 3, 5, 6, 7, 9, 10, 11}
   CSGDs = {0, 1, 2, 3, 4, 8, 9}
-  CReps = {0, 1, 2}
+  CReps = {0, 1}
   XNames = {"r2"}
   XDurs = {99, 0, 1, 6, 10}
   XSGDs = {0, 1, 8}
@@ -18,7 +18,7 @@ CONSTANTS
   UFull = TRUE
   AutoCreate = FALSE
   MaxSG = 0
-  MaxOps = 3
+  MaxOps = 2
   Record = TRUE
   Probing = TRUE
   NoOpSteps = FALSE
